@@ -407,7 +407,7 @@ func (x *Exec) sigByName(name string) *types.Signature {
 	return best.Type().(*types.Signature)
 }
 
-var callRecordRx = regexp.MustCompile(`\b(called|lastArg|lastRes)\(`)
+var callRecordRx = regexp.MustCompile(`\b(called|lastArg|lastRes|lastRecv)\(`)
 
 // recordedCallee: the simple name of the statically known callee when `opt record-calls` lists it.
 func (x *Exec) recordedCallee(e *ast.CallExpr) string {
@@ -483,6 +483,24 @@ func (x *Exec) evalCall0(e *ast.CallExpr, st *State) (Value, types.Type) {
 			}
 		}
 		// call through an opaque function value (field, map entry...)
+		if x.con != nil && x.con.Opts["apply-guard"] != "" && !x.contract {
+			// `opt apply-guard = cond`: every application of a function VALUE in the unit satisfies cond,
+			// arg(k) being the k-th argument of the application
+			ge, err := parser.ParseExpr(rewriteImplies(x.con.Opts["apply-guard"]))
+			if err != nil {
+				engineFail("apply-guard: %v", err)
+			}
+			gargs, gats := x.evalArgs(e.Args, st)
+			save := x.saveContractCtx()
+			x.contract = true
+			st.names["$guardargs"] = TupleV(append([]Value{}, gargs...))
+			st.names["$guardargtypes"] = append([]types.Type{}, gats...)
+			phi := x.evalBool(ge, st)
+			delete(st.names, "$guardargs")
+			delete(st.names, "$guardargtypes")
+			x.restoreContractCtx(save)
+			x.oblige(st, "pre", "apply-guard@"+types.ExprString(e), phi, x.con.Opts["apply-guard"])
+		}
 		if x.con != nil && x.con.Opts["trace-calls"] != "" {
 			// ghost trace of the applications of the named function values: tracedCount, tracedArg(k) = first argument
 			nm := ""
@@ -564,6 +582,9 @@ func (x *Exec) evalCall0(e *ast.CallExpr, st *State) (Value, types.Type) {
 		}
 	}
 	if nm := x.recordedCallee(e); nm != "" {
+		if f.Recv != nil {
+			st.names["$lastrecv:"+nm] = args[0]
+		}
 		st.names["$lastargs:"+nm] = TupleV(append([]Value{}, explicit...))
 		st.names["$lastargtypes:"+nm] = append([]types.Type{}, explicitT...)
 	}
@@ -1403,6 +1424,15 @@ func (x *Exec) evalSpecCall(e *ast.CallExpr, st *State) (Value, types.Type) {
 			return tv[k], et
 		}
 		return rv.(Value), rt
+	case "lastRecv": // the receiver of the latest recorded call of the method f
+		id, _ := e.Args[0].(*ast.Ident)
+		if id == nil {
+			engineFail("lastRecv needs a method name")
+		}
+		if v, ok := st.names["$lastrecv:"+id.Name]; ok {
+			return v.(Value), nil
+		}
+		return x.fresh("nocall", SInt), nil
 	case "oldAt": // oldAt(m, k): m[k] with m's contents taken in the old state and k evaluated now
 		if st.old == nil {
 			engineFail("oldAt() outside a postcondition")
@@ -1532,7 +1562,7 @@ func (x *Exec) evalSpecCall(e *ast.CallExpr, st *State) (Value, types.Type) {
 					}
 				}
 				switch id.Name {
-				case "implies", "iff", "ite", "old", "forall", "exists", "len", "has", "fresh", "substr", "nth", "forallS", "existsS", "forallR", "existsR", "atSelect", "calledAt", "tracedAt", "arg", "called", "lastArg", "lastRes", "oldAt", "rvInt", "rvFloat", "rvComplex", "rvString", "rvBool", "rvIface":
+				case "implies", "iff", "ite", "old", "forall", "exists", "len", "has", "fresh", "substr", "nth", "forallS", "existsS", "forallR", "existsR", "atSelect", "calledAt", "tracedAt", "arg", "called", "lastArg", "lastRes", "lastRecv", "oldAt", "rvInt", "rvFloat", "rvComplex", "rvString", "rvBool", "rvIface":
 					isSpec = true
 				}
 			}
